@@ -6,6 +6,7 @@
 #include <rtosc/port-sugar.h>
 #include <cmath>
 #include <deque>
+#include <functional>
 
 struct App { int vol, pan, big; float freq, q, neg, lg; bool en; static const rtosc::Ports ports; };
 #define rObject App
@@ -42,6 +43,7 @@ struct Case {
         case 3: d += " map(s" + std::to_string(o.slot) + "," + std::to_string(o.sub) + ",gain=" + std::to_string(o.gain) + ",off=" + std::to_string(o.offset) + ")"; break;
         case 4: d += " set(s" + std::to_string(o.slot) + "," + std::to_string(o.v1000 / 1000.0) + ")"; break;
         case 7: d += " path(s" + std::to_string(o.slot) + "," + std::to_string(o.sub) + "," + PARAMS[o.param].path + ")"; break;
+        case 8: d += " ctl(" + std::to_string(o.cc) + "=" + std::to_string(o.val) + ")"; break;
         case 5: d += " cc(" + std::to_string(o.ch) + "," + std::to_string(o.cc) + "," + std::to_string(o.val) + ")"; break;
         default: d += " nrpn(" + std::to_string(o.hi) + "," + std::to_string(o.lo) + "=" + std::to_string(o.vhi) + "," + std::to_string(o.vlo) + ")"; break;
       }
@@ -73,6 +75,9 @@ Case vf_generate() {
       o.kind = 5; o.ch = vf::pickn(3);
       do o.cc = vf::pick<int>(1, 20); while (o.cc == 6);   // 6,38,98,99 are (N)RPN control messages
       o.val = vf::pick<int>(0, 127);
+    } else if (nrpn_started && vf::chance(55)) {
+      // one (N)RPN control message on its own: a sender may select another parameter with the LSB alone, or send data entry alone
+      o.kind = 8; o.cc = vf::oneof<int>({98, 98, 98, 99, 6, 38}); o.val = (o.cc == 98) ? vf::pickn(4) : (o.cc == 99) ? vf::pickn(3) : vf::pick<int>(0, 127);
     } else { o.kind = 6; o.hi = vf::pickn(3); o.lo = vf::pickn(4); o.vhi = vf::pick<int>(0, 127); o.vlo = vf::pick<int>(0, 127); nrpn_started = true; }
     c.ops.push_back(o);
   }
@@ -91,6 +96,7 @@ static void apply_raw(rtosc::AutomationMgr &m, const Op &o) {
     case 3: m.setSlotSubGain(o.slot, o.sub, (float)o.gain); m.setSlotSubOffset(o.slot, o.sub, (float)o.offset); m.updateMapping(o.slot, o.sub); break;
     case 4: m.setSlot(o.slot, (float)o.v1000 / 1000.0f); break;
     case 5: m.handleMidi(o.ch, o.cc, o.val); break;
+    case 8: m.handleMidi(0, o.cc, o.val); break;
     default: { int seq[4][2] = {{99, o.hi}, {98, o.lo}, {6, o.vhi}, {38, o.vlo}}; for (auto &q : seq) m.handleMidi(0, q[0], q[1]); break; }
   }
 }
@@ -117,6 +123,7 @@ std::string vf_run(const Case &c, vf::Ctx &ctx) {
   int served = 0;
   int last_set_slot = -1; float last_v = 0; std::vector<double> last_out;
   bool nrpn_primed = false;
+  int sel_hi = -1, sel_lo = -1, dat_hi = -1, dat_lo = -1;   // (N)RPN: selected parameter and the data entered *since it was selected*
 
   auto remap = [&](MSub &s) {
     float mn = s.pmin, mx = s.pmax;
@@ -169,6 +176,7 @@ std::string vf_run(const Case &c, vf::Ctx &ctx) {
     served++;
     return s;
   };
+  std::function<std::string(int, int, int, const std::string &)> complete_nrpn;
   auto check_queue = [&](const std::string &W) -> std::string {
     // model queue == slots ordered by their 'learning' number 1..k
     std::vector<int> got((size_t)c.nslots, 0);
@@ -182,6 +190,21 @@ std::string vf_run(const Case &c, vf::Ctx &ctx) {
     for (int i = 0; i < c.nslots; i++) {
       if (mgr.slots[i].midi_cc != ms[(size_t)i].cc) return "slot " + std::to_string(i) + " is bound to controller " + std::to_string(mgr.slots[i].midi_cc) + ", expected " + std::to_string(ms[(size_t)i].cc) + W;
       if (mgr.slots[i].midi_nrpn != ms[(size_t)i].nrpn) return "slot " + std::to_string(i) + " is bound to NRPN " + std::to_string(mgr.slots[i].midi_nrpn) + ", expected " + std::to_string(ms[(size_t)i].nrpn) + W;
+    }
+    return "";
+  };
+
+  // what a complete NRPN (parameter id, 14-bit value) has to do: drive the slot bound to it, or serve the oldest learn request
+  complete_nrpn = [&](int id, int vhi, int vlo, const std::string &W) -> std::string {
+    std::string e;
+    std::vector<int> targets;
+    for (int i = 0; i < c.nslots; i++) if (ms[(size_t)i].nrpn == id) targets.push_back(i);
+    if (targets.empty()) { int t = model_learn_head(true, id); if (t >= 0) { std::vector<double> vals; if (!(e = check_emission(t, 0.5f, false, vals, W)).empty()) return "NRPN just learned: " + e; } else if (!out.empty()) return "unbound NRPN with nobody waiting produced a message" + W; }
+    else {
+      // several slots may share an NRPN only through separate learns of the same id, which cannot happen: one target
+      std::vector<double> vals;
+      float v = (float)(((vhi << 7) + vlo) / 16383.0);
+      if (!(e = check_emission(targets[0], v, true, vals, W)).empty()) return "bound NRPN: " + e;
     }
     return "";
   };
@@ -302,15 +325,28 @@ std::string vf_run(const Case &c, vf::Ctx &ctx) {
         }
         nrpn_primed = true;
         mgr.handleMidi(0, 38, o.vlo);
-        int id = (o.hi << 7) + o.lo;
-        std::vector<int> targets;
-        for (int i = 0; i < c.nslots; i++) if (ms[(size_t)i].nrpn == id) targets.push_back(i);
-        if (targets.empty()) { int t = model_learn_head(true, id); if (t >= 0) { std::vector<double> vals; if (!(e = check_emission(t, 0.5f, false, vals, W)).empty()) return "NRPN just learned: " + e; } else if (!out.empty()) return "unbound NRPN with nobody waiting produced a message" + W; }
-        else {
-          // several slots may share an NRPN only through separate learns of the same id, which cannot happen: one target
-          std::vector<double> vals;
-          float v = (float)(((o.vhi << 7) + o.vlo) / 16383.0);
-          if (!(e = check_emission(targets[0], v, true, vals, W)).empty()) return "bound NRPN: " + e;
+        sel_hi = o.hi; sel_lo = o.lo; dat_hi = o.vhi; dat_lo = o.vlo;
+        if (!(e = complete_nrpn((o.hi << 7) + o.lo, o.vhi, o.vlo, W)).empty()) return e;
+        break;
+      }
+      case 8: {
+        // a single control message: selecting (99/98) forgets the data entered for the parameter selected before;
+        // data entry (6/38) counts only while a parameter is selected; the controller speaks once all four are known
+        // the constructor leaves the NRPN state indeterminate (see DESIGN.md): before the first complete sequence (only in
+        // shrunk histories) a single control message is not sent at all
+        if (!nrpn_primed) { ctx.count("skipped.single_nrpn_control_message_before_any_sequence"); break; }
+        if (with_shadow) shadow.handleMidi(0, o.cc, (o.val + 1) % 3);
+        mgr.handleMidi(0, o.cc, o.val);
+        if (o.cc == 99) { sel_hi = o.val; dat_hi = dat_lo = -1; }
+        else if (o.cc == 98) { sel_lo = o.val; dat_hi = dat_lo = -1; }
+        else if (sel_hi >= 0 && sel_lo >= 0) { if (o.cc == 6) dat_hi = o.val; else dat_lo = o.val; }
+        ctx.count("class.single_nrpn_control_message");
+        if (sel_hi >= 0 && sel_lo >= 0 && dat_hi >= 0 && dat_lo >= 0) {
+          ctx.count("class.single_nrpn_control_message.completes");
+          if (!(e = complete_nrpn((sel_hi << 7) + sel_lo, dat_hi, dat_lo, W)).empty()) return e;
+        } else {
+          if (!out.empty()) return "NRPN control message " + std::to_string(o.cc) + " that leaves the sequence incomplete (no data entered since the parameter was selected) produced a parameter message" + W;
+          // the queue is compared below
         }
         break;
       }
